@@ -275,6 +275,9 @@ func (s *Store[K, V]) getFromShard(key K, hash uint64, shard *Shard[K, V]) (shar
 			value = entry.value
 		}
 	}
+	if verifOn {
+		verifAt(VpGetMap, key, entry, value, verifB(ok), int64(hash))
+	}
 	return shardEntry[K, V]{
 		entry: entry,
 		value: value,
@@ -356,8 +359,14 @@ func (s *Store[K, V]) GetWithSecodary(key K) (V, bool, error) {
 }
 
 func (s *Store[K, V]) policyNewEntry(hash uint64, shard *Shard[K, V], cost int64, entry *Entry[K, V], fromNVM bool) {
+	if verifOn {
+		verifAt(VpPreSend, s, entry, nil, int64(NEW), cost)
+	}
 	s.writeChan <- WriteBufItem[K, V]{
 		code: NEW, entry: entry, hash: hash, fromNVM: fromNVM, costChange: cost,
+	}
+	if verifOn {
+		verifAt(VpPostSend, s, entry, nil, int64(NEW), cost)
 	}
 }
 
@@ -366,9 +375,15 @@ func (s *Store[K, V]) policyUpdateEntry(entry *Entry[K, V], hash uint64, cost, o
 	// send cost change in event and apply them to entry policy weight
 	// so different order still works.
 	costChange := cost - old
+	if verifOn {
+		verifAt(VpPreSend, s, entry, nil, int64(UPDATE), costChange)
+	}
 	s.writeChan <- WriteBufItem[K, V]{
 		entry: entry, code: UPDATE, costChange: costChange, rechedule: reschedule,
 		hash: hash,
+	}
+	if verifOn {
+		verifAt(VpPostSend, s, entry, nil, int64(UPDATE), costChange)
 	}
 }
 
@@ -389,6 +404,9 @@ func (s *Store[K, V]) setShard(shard *Shard[K, V], hash uint64, key K, value V, 
 func (s *Store[K, V]) setShardWithoutLock(shard *Shard[K, V], hash uint64, key K, value V, cost int64, expire int64, nvmClean bool) setShardResult[K, V] {
 	result := setShardResult[K, V]{success: true}
 	if shard.closed {
+		if verifOn {
+			verifAt(VpSetMapClosed, key, nil, value, cost, expire)
+		}
 		return result
 	}
 	exist, ok := shard.get(key)
@@ -406,6 +424,9 @@ func (s *Store[K, V]) setShardWithoutLock(shard *Shard[K, V], hash uint64, key K
 		exist.value = value
 		old := exist.weight.Swap(cost)
 		result.oldCost = old
+		if verifOn {
+			verifAt(VpSetMapUpdate, key, exist, value, cost, expire, old, verifB(result.reschedule), verifB(nvmClean))
+		}
 		return result
 	}
 
@@ -418,6 +439,9 @@ func (s *Store[K, V]) setShardWithoutLock(shard *Shard[K, V], hash uint64, key K
 		if !hit {
 			shard.counter += 1
 			result.success = false
+			if verifOn {
+				verifAt(VpSetMapReject, key, nil, value, cost, expire)
+			}
 			return result
 		}
 	}
@@ -443,6 +467,9 @@ func (s *Store[K, V]) setShardWithoutLock(shard *Shard[K, V], hash uint64, key K
 	shard.set(entry.key, entry)
 	result.entry = entry
 	result.exists = false
+	if verifOn {
+		verifAt(VpSetMapNew, key, entry, value, cost, expire, 0, 0, verifB(nvmClean))
+	}
 	return result
 }
 
@@ -494,9 +521,18 @@ func (s *Store[K, V]) Delete(key K) {
 	if ok {
 		shard.delete(entry)
 	}
+	if verifOn {
+		verifAt(VpDelMap, key, entry, nil, verifB(ok))
+	}
 	shard.mu.Unlock()
 	if ok {
+		if verifOn {
+			verifAt(VpPreSend, s, entry, nil, int64(REMOVE), 0)
+		}
 		s.writeChan <- WriteBufItem[K, V]{entry: entry, code: REMOVE, hash: h}
+		if verifOn {
+			verifAt(VpPostSend, s, entry, nil, int64(REMOVE), 0)
+		}
 	}
 }
 
@@ -515,9 +551,18 @@ func (s *Store[K, V]) DeleteWithSecondary(key K) error {
 			}
 		}
 	}
+	if verifOn {
+		verifAt(VpDelMap, key, entry, nil, verifB(ok), 1)
+	}
 	shard.mu.Unlock()
 	if ok {
+		if verifOn {
+			verifAt(VpPreSend, s, entry, nil, int64(REMOVE), 0)
+		}
 		s.writeChan <- WriteBufItem[K, V]{entry: entry, code: REMOVE}
+		if verifOn {
+			verifAt(VpPostSend, s, entry, nil, int64(REMOVE), 0)
+		}
 	}
 	return nil
 }
@@ -556,6 +601,9 @@ func (s *Store[K, V]) postDelete(entry *Entry[K, V]) {
 // remove entry from cache/policy/timingwheel and add back to pool
 // this method must be used with policy mutex together
 func (s *Store[K, V]) removeEntry(entry *Entry[K, V], reason RemoveReason) {
+	if verifOn {
+		verifAt(VpRemoveIn, s, entry, nil, int64(reason))
+	}
 	entry.flag.SetRemoved(true)
 	_, index := s.index(entry.key)
 	shard := s.shards[index]
@@ -563,7 +611,13 @@ func (s *Store[K, V]) removeEntry(entry *Entry[K, V], reason RemoveReason) {
 	if reason == EXPIRED {
 		// entry might updated already
 		// update expire filed are protected by shard mutex
+		if verifOn {
+			verifAt(VpRecheck, s, entry, nil, int64(reason))
+		}
 		if entry.expire.Load() > s.timerwheel.clock.NowNano() {
+			if verifOn {
+				verifAt(VpRecheckAbort, s, entry, nil, int64(reason))
+			}
 			return
 		}
 	}
@@ -590,6 +644,9 @@ func (s *Store[K, V]) removeEntry(entry *Entry[K, V], reason RemoveReason) {
 					reason: reason,
 					shard:  shard,
 				}:
+					if verifOn {
+						verifAt(VpHandoff, s, entry, nil, int64(reason))
+					}
 					return
 				default:
 				}
@@ -597,6 +654,9 @@ func (s *Store[K, V]) removeEntry(entry *Entry[K, V], reason RemoveReason) {
 		}
 		shard.mu.Lock()
 		deleted := shard.delete(entry)
+		if verifOn {
+			verifAt(VpMapRemoved, s, entry, nil, int64(reason), verifB(deleted))
+		}
 		shard.mu.Unlock()
 		if deleted {
 			k, v := entry.key, entry.value
@@ -608,6 +668,9 @@ func (s *Store[K, V]) removeEntry(entry *Entry[K, V], reason RemoveReason) {
 
 	// already removed from shard map
 	case REMOVED:
+		if verifOn {
+			verifAt(VpRemovedArm, s, entry, nil, int64(reason))
+		}
 		entry.flag.SetDeleted(true)
 		kv := s.kvBuilder(entry)
 		_ = s.removalCallback(kv, reason)
@@ -621,13 +684,22 @@ func (s *Store[K, V]) drainRead(buffer []ReadBufItem[K, V]) {
 		if s.entryPool != nil {
 			hh := s.hasher.Hash(e.entry.key)
 			if hh != e.hash {
+				if verifOn {
+					verifAt(VpAccessSkip, s, e.entry, nil, int64(e.hash))
+				}
 				continue
 			}
 		}
 		if e.entry.flag.IsRemoved() {
+			if verifOn {
+				verifAt(VpAccessSkip, s, e.entry, nil, int64(e.hash))
+			}
 			continue
 		}
 
+		if verifOn {
+			verifAt(VpAccess, s, e.entry, nil, int64(e.hash))
+		}
 		s.policy.Access(e)
 	}
 	s.policyMu.Unlock()
@@ -637,6 +709,10 @@ func (s *Store[K, V]) sinkWrite(item WriteBufItem[K, V]) {
 	entry := item.entry
 	if entry == nil {
 		return
+	}
+	if verifOn {
+		verifAt(VpSinkIn, s, entry, nil, int64(item.code), item.costChange, verifB(item.rechedule), verifB(item.fromNVM))
+		defer verifAt(VpSinkOut, s, entry, nil, int64(item.code), item.costChange)
 	}
 
 	// entry removed by API explicitly will not resue by sync pool,
@@ -719,7 +795,13 @@ func (s *Store[K, V]) drainWrite() {
 
 	s.writeBuffer = s.writeBuffer[:0]
 	if wait {
+		if verifOn {
+			verifAt(VpPreWake, s, nil, nil)
+		}
 		s.waitChan <- true
+		if verifOn {
+			verifAt(VpPostWake, s, nil, nil)
+		}
 	}
 }
 
@@ -733,16 +815,31 @@ func (s *Store[K, V]) maintenance() {
 			select {
 			case <-s.ctx.Done():
 				s.maintenanceTicker.Stop()
+				if verifOn {
+					verifAt(VpTickExit, s, nil, nil)
+				}
 				return
 			case <-s.maintenanceTicker.C:
+				if verifOn {
+					verifAt(VpTickPreLock, s, nil, nil)
+				}
 				s.policyMu.Lock()
 				s.timerwheel.clock.RefreshNowCache()
+				if verifOn {
+					verifAt(VpTickLocked, s, nil, nil)
+				}
 				if s.closed {
 					s.policyMu.Unlock()
+					if verifOn {
+						verifAt(VpTickExit, s, nil, nil)
+					}
 					return
 				}
 				s.timerwheel.advance(0, s.removeEntry)
 				s.maintenanceTicker.Reset(time.Second)
+				if verifOn {
+					verifAt(VpTickDone, s, nil, nil)
+				}
 				s.policyMu.Unlock()
 			}
 		}
@@ -751,8 +848,14 @@ func (s *Store[K, V]) maintenance() {
 	// continuously receive the first item from the buffered channel.
 	// avoid a busy loop while still processing data in batches.
 	for {
+		if verifOn {
+			verifAt(VpMaintTop, s, nil, nil)
+		}
 		select {
 		case <-s.ctx.Done():
+			if verifOn {
+				verifAt(VpMaintExit, s, nil, nil)
+			}
 			return
 		case first := <-s.writeChan:
 			s.writeBuffer = append(s.writeBuffer, first)
@@ -761,6 +864,9 @@ func (s *Store[K, V]) maintenance() {
 				select {
 				case item, ok := <-s.writeChan:
 					if !ok {
+						if verifOn {
+							verifAt(VpMaintExit, s, nil, nil)
+						}
 						return
 					}
 					s.writeBuffer = append(s.writeBuffer, item)
@@ -769,8 +875,17 @@ func (s *Store[K, V]) maintenance() {
 				}
 			}
 
+			if verifOn {
+				verifAt(VpMaintPreLock, s, nil, nil, int64(len(s.writeBuffer)))
+			}
 			s.policyMu.Lock()
+			if verifOn {
+				verifAt(VpMaintLocked, s, nil, nil, int64(len(s.writeBuffer)))
+			}
 			s.drainWrite()
+			if verifOn {
+				verifAt(VpMaintUnlock, s, nil, nil)
+			}
 			s.policyMu.Unlock()
 		}
 	}
@@ -819,11 +934,17 @@ func (s *Store[K, V]) Close() {
 		shard.mu.Lock()
 		shard.closed = true
 		shard.hashmap = map[K]*Entry[K, V]{}
+		if verifOn {
+			verifAt(VpCloseShard, s, shard, nil)
+		}
 		shard.mu.Unlock()
 	}
 	s.policyMu.Lock()
 	s.closed = true
 	s.cancel()
+	if verifOn {
+		verifAt(VpCloseCancel, s, nil, nil)
+	}
 	s.policyMu.Unlock()
 }
 
@@ -906,23 +1027,38 @@ func (s *Store[K, V]) insertSimple(entry *Entry[K, V]) {
 
 func (s *Store[K, V]) processSecondary() {
 	for item := range s.secondaryCacheBuf {
+		if verifOn {
+			verifAt(VpSecTake, s, item.entry, nil)
+		}
 		tk := item.shard.mu.RLock()
 		// first double check key still exists in map,
 		// not exist means key already deleted by Delete API
 		_, exist := item.shard.get(item.entry.key)
+		if verifOn {
+			verifAt(VpSecCheck, s, item.entry, nil, verifB(exist))
+		}
 		if exist {
 			err := s.secondaryCache.Set(
 				item.entry.key, item.entry.value,
 				item.entry.weight.Load(), item.entry.expire.Load(),
 			)
+			if verifOn {
+				verifAt(VpSecSet, s, item.entry, nil, verifB(err == nil))
+			}
 			item.shard.mu.RUnlock(tk)
 			if err != nil {
 				s.secondaryCache.HandleAsyncError(err)
+				if verifOn {
+					verifAt(VpSecDone, s, item.entry, nil, 0)
+				}
 				continue
 			}
 			if item.reason == EVICTED {
 				item.shard.mu.Lock()
 				deleted := item.shard.delete(item.entry)
+				if verifOn {
+					verifAt(VpSecDel, s, item.entry, nil, verifB(deleted))
+				}
 				item.shard.mu.Unlock()
 				if deleted {
 					s.policyMu.Lock()
@@ -933,12 +1069,24 @@ func (s *Store[K, V]) processSecondary() {
 		} else {
 			item.shard.mu.RUnlock(tk)
 		}
+		if verifOn {
+			verifAt(VpSecDone, s, item.entry, nil, 1)
+		}
+	}
+	if verifOn {
+		verifAt(VpSecExit, s, nil, nil)
 	}
 }
 
 // Wait blocks until the write channel is drained.
 func (s *Store[K, V]) Wait() {
+	if verifOn {
+		verifAt(VpPreSend, s, nil, nil, int64(WAIT), 0)
+	}
 	s.writeChan <- WriteBufItem[K, V]{code: WAIT}
+	if verifOn {
+		verifAt(VpWaitMid, s, nil, nil)
+	}
 	<-s.waitChan
 }
 
